@@ -397,10 +397,12 @@ CancelPending(u) ==
 
 \* the task of client c is cancelled while it is suspended inside acquire() or release()
 Cancel(c) ==
-  /\ ncancel < MaxCancel /\ pc[c] \in Parked /\ ~CancelPending(c)
+  /\ ncancel < MaxCancel /\ pc[c] \in Parked
   /\ ncancel' = ncancel + 1
   /\ IF pc[c] = "a_join" /\ ~FixShield /\ pc[join[c]] \notin Terminal
-     THEN ~CancelPending(join[c]) /\ CancelParked(join[c])      \* cancelling the awaiter cancels the awaited task
+     THEN IF CancelPending(join[c]) THEN UNCHANGED <<lock, cond, cflag, pc>>
+          ELSE CancelParked(join[c])                            \* cancelling the awaiter cancels the awaited task
+     ELSE IF CancelPending(c) THEN UNCHANGED <<lock, cond, cflag, pc>>   \* a second cancel() changes nothing
      ELSE CancelParked(c)
   /\ UNCHANGED <<pvars, tk, tc, ck, tq, tforce, cwc, why, join, rtasks, uses, nkill>>
   /\ Obs
